@@ -59,6 +59,7 @@ type fproxy struct {
 	plan        string
 	ks          []int // per ordinal: how many header bytes a 'P' step sends
 	hdr         []byte
+	dflt        byte // what happens to connections beyond the plan (0: 'E'); see setDefault
 	mu          sync.Mutex
 	conns       []*fconn
 }
@@ -71,6 +72,21 @@ func (p *fproxy) conn(i int) fconn {
 }
 func (p *fproxy) stamp(fc *fconn) { p.mu.Lock(); fc.acted = mon.Now(); p.mu.Unlock() }
 
+// setDefault changes what happens to the connections that arrive from now on (beyond the plan).
+func (p *fproxy) setDefault(act byte) { p.mu.Lock(); p.dflt = act; p.mu.Unlock() }
+
+// firstWith returns the ordinal of the first connection at or after ordinal from that was given action act.
+func (p *fproxy) firstWith(act byte, from int) int {
+	p.mu.Lock()
+	defer p.mu.Unlock()
+	for i := from; i < len(p.conns); i++ {
+		if p.conns[i].act == act {
+			return i
+		}
+	}
+	return -1
+}
+
 func (p *fproxy) serve() {
 	for {
 		cn, err := p.ln.Accept()
@@ -82,6 +98,8 @@ func (p *fproxy) serve() {
 		fc := &fconn{ord: len(p.conns), act: 'E', accepted: now, cli: cn, release: make(chan struct{})}
 		if fc.ord < len(p.plan) {
 			fc.act = p.plan[fc.ord]
+		} else if p.dflt != 0 {
+			fc.act = p.dflt
 		}
 		if fc.act == 'W' {
 			fc.acted = now // the failure follows from the relaying that starts now
@@ -203,21 +221,53 @@ func backoffCap(R, Max time.Duration, fails int) time.Duration {
 	return time.Duration(d)
 }
 
-func runFlaky(c *mon.Case, sp spec) {
-	tr := sp.Tr
-	R := time.Duration(sp.RMs) * time.Millisecond
-	Max := time.Duration(sp.MaxMs) * time.Millisecond
+// fleg is one dialling socket with its dialer, the relay it dials and the real peer behind the relay.
+type fleg struct {
+	tr, proto string
+	R, Max    time.Duration
+	px        *fproxy
+	sock, be  mangos.Socket
+	sw, bw    *hx.PipeWatch
+	d         mangos.Dialer
+	created   time.Duration // taken just before NewDialer
+	reqN      uint32
+	lastReq   *mangos.Message // raw REP/RESPONDENT in the dialler's role: the request to answer
+}
+
+// longWaits: timers of the patterns that would otherwise end an exchange by themselves.
+func longWaits(s mangos.Socket, proto string) {
+	switch strings.TrimPrefix(proto, "x") {
+	case "req":
+		s.SetOption(mangos.OptionRetryTime, time.Hour)
+	case "surveyor":
+		s.SetOption(mangos.OptionSurveyTime, time.Hour)
+	case "sub":
+		if proto == "sub" {
+			s.SetOption(mangos.OptionSubscribe, []byte{})
+		}
+	}
+}
+
+// newFleg sets the real peer, the wrong-protocol listener, the relay and the dialling socket up and
+// creates the dialer (not started).  nil: set-up failed (recorded as inconclusive).
+func newFleg(c *mon.Case, tr, proto string, R, Max time.Duration, async bool, plan string, dflt byte) *fleg {
+	g := &fleg{tr: tr, proto: proto, R: R, Max: Max}
 	var lo map[string]interface{}
-	do := map[string]interface{}{mangos.OptionReconnectTime: R, mangos.OptionMaxReconnectTime: Max, mangos.OptionDialAsynch: sp.Async}
+	do := map[string]interface{}{mangos.OptionReconnectTime: R, mangos.OptionMaxReconnectTime: Max, mangos.OptionDialAsynch: async}
 	if hx.NeedsTLS(tr) {
 		s, cl := hx.TLSConfigs()
 		lo = map[string]interface{}{mangos.OptionTLSConfig: s}
 		do[mangos.OptionTLSConfig] = cl
 	}
 	// the real peer, and a listening socket of a protocol the dialer cannot talk to
-	be := hx.MustSock(c, hx.PeerOf[sp.Proto])
-	bw := hx.WatchPipes(be)
-	wrong := hx.MustSock(c, "pub")
+	g.be = hx.MustSock(c, hx.PeerOf[proto])
+	longWaits(g.be, hx.PeerOf[proto])
+	g.bw = hx.WatchPipes(g.be)
+	wrongProto := "pub"
+	if hx.PeerOf[proto] == "pub" {
+		wrongProto = "pull"
+	}
+	wrong := hx.MustSock(c, wrongProto)
 	listen := func(s mangos.Socket, at string) (string, error) {
 		l, err := s.NewListener(at, lo)
 		if err == nil {
@@ -228,10 +278,10 @@ func runFlaky(c *mon.Case, sp spec) {
 		}
 		return l.Address(), nil
 	}
-	goodAt, err := listen(be, ownAddr(tr))
+	goodAt, err := listen(g.be, ownAddr(tr))
 	if err != nil {
 		c.Inconclusive("setup: %v", err)
-		return
+		return nil
 	}
 	network, goodNet, path := netAddr(tr, goodAt)
 	wrongReq := ownAddr(tr)
@@ -241,20 +291,21 @@ func runFlaky(c *mon.Case, sp spec) {
 	wrongAt, err := listen(wrong, wrongReq)
 	if err != nil {
 		c.Inconclusive("setup: %v", err)
-		return
+		return nil
 	}
 	_, wrongNet, _ := netAddr(tr, wrongAt)
 
-	px := &fproxy{network: network, good: goodNet, wrong: wrongNet, stream: tr == "tcp" || tr == "ipc", plan: sp.Script}
-	peerNo := be.Info().Self
+	px := &fproxy{network: network, good: goodNet, wrong: wrongNet, stream: tr == "tcp" || tr == "ipc", plan: plan, dflt: dflt}
+	g.px = px
+	peerNo := g.be.Info().Self
 	px.hdr = []byte{0, 'S', 'P', 0, byte(peerNo >> 8), byte(peerNo), 0, 0}
-	for range sp.Script {
+	for range plan {
 		px.ks = append(px.ks, 1+c.Rand.Intn(7))
 	}
 	_, lat, _ := netAddr(tr, ownAddr(tr))
 	if px.ln, err = net.Listen(network, lat); err != nil {
 		c.Inconclusive("setup: relay listen: %v", err)
-		return
+		return nil
 	}
 	go px.serve()
 	c.Cleanup(func() {
@@ -274,16 +325,27 @@ func runFlaky(c *mon.Case, sp spec) {
 		}
 	})
 
-	sock := hx.MustSock(c, sp.Proto)
-	sw := hx.WatchPipes(sock)
-	if sp.Proto == "req" {
-		sock.SetOption(mangos.OptionRetryTime, time.Hour)
-	}
-	d, err := sock.NewDialer(tr+"://"+px.ln.Addr().String()+path, do)
+	g.sock = hx.MustSock(c, proto)
+	g.sw = hx.WatchPipes(g.sock)
+	longWaits(g.sock, proto)
+	g.created = mon.Now()
+	g.d, err = g.sock.NewDialer(tr+"://"+px.ln.Addr().String()+path, do)
 	if err != nil {
 		c.Inconclusive("setup: NewDialer: %v", err)
+		return nil
+	}
+	return g
+}
+
+func runFlaky(c *mon.Case, sp spec) {
+	tr := sp.Tr
+	R := time.Duration(sp.RMs) * time.Millisecond
+	Max := time.Duration(sp.MaxMs) * time.Millisecond
+	g := newFleg(c, tr, sp.Proto, R, Max, sp.Async, sp.Script, 0)
+	if g == nil {
 		return
 	}
+	px, sock, d, sw, bw := g.px, g.sock, g.d, g.sw, g.bw
 	where := "flaky/" + tr
 	dc := mon.Go("Dial", func() (interface{}, error) { return nil, d.Dial() })
 	if sp.Async {
@@ -337,7 +399,7 @@ func runFlaky(c *mon.Case, sp spec) {
 			}
 			nG++
 			fails = 0
-			if !flakyExchange(c, sp, where, sock, be, R) {
+			if !g.exchange(c, where) {
 				return
 			}
 			if i == last {
@@ -424,14 +486,72 @@ func (p *fproxy) cut(c *mon.Case, i int, bw *hx.PipeWatch, detached int) bool {
 	return true
 }
 
-// flakyExchange: traffic on the connection that has just attached, in the directions the pattern has.
-func flakyExchange(c *mon.Case, sp spec, where string, sock, be mangos.Socket, R time.Duration) bool {
+// dirs: the directions the pattern of the dialling socket has, in the order a conversation takes them.
+func dirs(proto string) (first, second string) {
+	switch strings.TrimPrefix(proto, "x") {
+	case "push", "pub":
+		return "dialer to peer", ""
+	case "pull", "sub":
+		return "peer to dialer", ""
+	case "rep", "respondent":
+		return "peer to dialer", "dialer to peer"
+	}
+	return "dialer to peer", "peer to dialer"
+}
+
+// send: the dialling socket sends body the way its protocol wants it (the peer is always cooked).
+func (g *fleg) send(body []byte) error {
+	var hdr []byte
+	switch g.proto {
+	case "xpair1", "xstar":
+		hdr = []byte{0, 0, 0, 0} // hop count
+	case "xreq", "xsurveyor":
+		g.reqN++
+		hdr = hx.Be32(0x80000000 | g.reqN)
+	case "xrep", "xrespondent":
+		m := g.lastReq // answered with the header it came with
+		if m == nil {
+			return fmt.Errorf("harness: no request to answer")
+		}
+		g.lastReq = nil
+		m.Body = append(m.Body[:0], body...)
+		return g.sock.SendMsg(m)
+	default:
+		return g.sock.Send(body)
+	}
+	m := mangos.NewMessage(len(body))
+	m.Header = append(m.Header, hdr...)
+	m.Body = append(m.Body, body...)
+	return g.sock.SendMsg(m)
+}
+
+func (g *fleg) recv() ([]byte, error) {
+	switch g.proto {
+	case "xrep", "xrespondent":
+		m, err := g.sock.RecvMsg()
+		if err != nil {
+			return nil, err
+		}
+		g.lastReq = m
+		return append([]byte{}, m.Body...), nil
+	}
+	return g.sock.Recv()
+}
+
+// exchange: traffic on the connection that has just attached, in the directions the pattern has.
+func (g *fleg) exchange(c *mon.Case, where string) bool {
 	msg := []byte("m-" + hx.Uniq("x"))
-	xfer := func(dir string, from, to mangos.Socket, body []byte) bool {
-		s := mon.Go("Send", func() (interface{}, error) { return nil, from.Send(body) })
-		r := mon.Go("Recv", func() (interface{}, error) { return to.Recv() })
-		if !c.AwaitOrViolate("dial/traffic-not-resumed:send/"+where, "Send ("+dir+") completing on the new connection", s.Done, mon.AwaitOpts{MaxTimer: R}) ||
-			!c.AwaitOrViolate("dial/traffic-not-resumed:recv/"+where, "Recv ("+dir+") of a message sent on the new connection", r.Done, mon.AwaitOpts{MaxTimer: R}) {
+	xfer := func(dir string, body []byte) bool {
+		var s, r *mon.Call
+		if dir == "dialer to peer" {
+			s = mon.Go("Send", func() (interface{}, error) { return nil, g.send(body) })
+			r = mon.Go("Recv", func() (interface{}, error) { return g.be.Recv() })
+		} else {
+			s = mon.Go("Send", func() (interface{}, error) { return nil, g.be.Send(body) })
+			r = mon.Go("Recv", func() (interface{}, error) { return g.recv() })
+		}
+		if !c.AwaitOrViolate("dial/traffic-not-resumed:send/"+where, "Send ("+dir+") completing on the new connection", s.Done, mon.AwaitOpts{MaxTimer: g.R}) ||
+			!c.AwaitOrViolate("dial/traffic-not-resumed:recv/"+where, "Recv ("+dir+") of a message sent on the new connection", r.Done, mon.AwaitOpts{MaxTimer: g.R}) {
 			return false
 		}
 		if _, e, _ := s.Result(); e != nil {
@@ -444,14 +564,18 @@ func flakyExchange(c *mon.Case, sp spec, where string, sock, be mangos.Socket, R
 		}
 		return true
 	}
-	if !xfer("dialer to peer", sock, be, msg) {
+	d1, d2 := dirs(g.proto)
+	if !xfer(d1, msg) {
 		return false
 	}
-	if sp.Proto != "push" {
-		if !xfer("peer to dialer", be, sock, append([]byte("r-"), msg...)) {
+	if d2 != "" {
+		if !xfer(d2, append([]byte("r-"), msg...)) {
 			return false
 		}
 	}
 	c.Count("exchanges_after_reconnect", 1)
+	if d2 == "" && d1 == "peer to dialer" {
+		c.Count("exchanges_after_reconnect_receive_only_socket", 1)
+	}
 	return true
 }
